@@ -70,6 +70,7 @@ var c06Needles = map[string]string{
 	"replace-import-shadowed": "example.com/conversion/to",
 	"bump":                    "c14bump",
 	"elide-then-delete":       "c14",
+	"unparseable-result":      "c14chk",
 }
 
 var c06PkgRe = regexp.MustCompile(`(?m)^package ([A-Za-z_][A-Za-z0-9_]*)`)
